@@ -896,8 +896,54 @@ fn run_file(seed: u64, case_line: &str, stream: &[u8]) -> Outcome {
                 cells.push((i as u32, 1, txt.clone()));
             }
             if short && !txt.is_empty() && rng.chance(1, 4) {
-                sh.cells.push(XlsCell::new(i as u16, 2, CellV::Formula { rgce: rgce_int(1), cached: Cached::Str(txt.clone()) }));
+                // FORMULA with a string result: the STRING record follows directly, or after the definition of a
+                // shared formula (SHRFMLA), an array formula (ARRAY) or a data table (TABLE)
+                let between = rng.below(5);
+                if between < 2 {
+                    sh.cells.push(XlsCell::new(i as u16, 2, CellV::Formula { rgce: rgce_int(1), cached: Cached::Str(txt.clone()) }));
+                } else {
+                    use verif_harness::xlsw as x;
+                    let row = i as u16;
+                    sh.cells.push(XlsCell::raw(x::FORMULA, x::formula_payload(row, 2, 0, x::formula_value(&Cached::Str(String::new())), &rgce_int(1))));
+                    let mut d = row.to_le_bytes().to_vec(); // Ref: rwFirst rwLast colFirst colLast
+                    d.extend_from_slice(&row.to_le_bytes());
+                    d.extend_from_slice(&[2, 2]);
+                    let rg = rgce_int(1);
+                    let id = match between {
+                        2 => {
+                            d.extend_from_slice(&[0, 1]); // reserved, cUse
+                            d.extend_from_slice(&(rg.len() as u16).to_le_bytes());
+                            d.extend_from_slice(&rg);
+                            0x04BCu16 // SHRFMLA
+                        }
+                        3 => {
+                            d.extend_from_slice(&0u16.to_le_bytes());
+                            d.extend_from_slice(&0u32.to_le_bytes());
+                            d.extend_from_slice(&(rg.len() as u16).to_le_bytes());
+                            d.extend_from_slice(&rg);
+                            0x0221 // ARRAY
+                        }
+                        _ => {
+                            d.extend_from_slice(&0u16.to_le_bytes());
+                            d.extend_from_slice(&[0u8; 8]);
+                            0x0236 // TABLE
+                        }
+                    };
+                    sh.cells.push(XlsCell::raw(id, d));
+                    sh.cells.push(XlsCell::raw(x::STRING, x::xl_unicode_string(txt, None, &mut rng)));
+                    o.count(match between {
+                        2 => "file.string_after_shrfmla",
+                        3 => "file.string_after_array",
+                        _ => "file.string_after_table",
+                    });
+                }
                 cells.push((i as u32, 2, txt.clone()));
+            }
+            // a second cell of the same sheet naming the same shared string
+            if rng.chance(1, 3) {
+                sh.cells.push(XlsCell::new(i as u16, 3, CellV::LabelSst(i as u32)));
+                cells.push((i as u32, 3, txt.clone()));
+                o.count("file.isst_referenced_again_in_sheet");
             }
         }
         book.sheets.push(sh);
@@ -923,7 +969,7 @@ fn run_file(seed: u64, case_line: &str, stream: &[u8]) -> Outcome {
                 let ok = matches!(got, Some(Data::String(s)) if s == txt);
                 if !ok {
                     let kind = match c {
-                        0 => "file_labelsst_cell_differs",
+                        0 | 3 => "file_labelsst_cell_differs",
                         1 => "file_label_cell_differs",
                         _ => "file_formula_string_differs",
                     };
@@ -1518,6 +1564,11 @@ fn corpus() -> Vec<(String, Option<String>)> {
     // 19 empty strings then "last": more strings than payload bytes / 4 (seeded change C12-m5: an entry estimate used as a bound)
     v.push((format!("case 20 {};6c00610073007400,~,~,0,1,-,-,-", vec!["-,~,~,0,0,-,-,-"; 19].join(";")), None));
     v.push((format!("file 3 case 20 {};6c00610073007400,~,~,0,1,-,-,-", vec!["-,~,~,0,1,-,-,-"; 19].join(";")), None));
+    // cstTotal == cstUnique with strings named by several cells (seeded change C12-m11: strings moved out of the table);
+    // FORMULA, SHRFMLA / ARRAY / TABLE, STRING (seeded change C12-m10: the STRING arm guarded by the previous record type)
+    for seed in 1..=10u64 {
+        v.push((format!("file {seed} case 3 6100,~,~,0,1,-,-,-;62006300,~,~,0,0,-,-,-;64006500e900,~,~,0,1,1:1,-,-"), None));
+    }
     // an entry with 16 384 rich-text runs: 4 * cRun = 65 536 (seeded change C12-m7: the product computed in 16 bits)
     {
         let mut rng = Rng::new(5);
@@ -1640,7 +1691,13 @@ fn run_job_inner(job: &Job, drv: &mut Driver) -> Vec<Outcome> {
         Job::Table(seed) => {
             let mut rng = Rng::new(*seed);
             let t = gen_table(&mut rng);
-            let total = rng.below(1 << 20) as u32;
+            // cstTotal (the number of references, which readers must not rely on): equal to / smaller than / larger
+            // than cstUnique
+            let total = match rng.below(3) {
+                0 => t.len() as u32,
+                1 => rng.below(t.len() as u64 + 1) as u32,
+                _ => t.len() as u32 + 1 + rng.below(1 << 20) as u32,
+            };
             let mut outs = vec![];
             let mut firsts: Option<String> = None;
             for k in 0..8 {
@@ -1789,8 +1846,10 @@ fn main() {
          the stream is produced by the Lean encoder and read by the real RecordIter+parse_sst (hook, code page 1200), by the \
          Lean model and compared with the stored text; the 8 results of a table must be identical. stage B (correspondence \
          only): illegal layouts, streams with one structural fault, raw record sequences for RecordIter, Record::skip. \
+         the SST header's cstTotal is equal to / smaller than / larger than cstUnique (a third each). \
          stage D: one layout of each table inside a complete .xls (xlsw writer, random compound-file layout): LABELSST cell per \
-         string, inline LABEL cells and FORMULA+STRING results for strings <= 2000 units, sheet names = first <= 30 units of a \
+         string (one time in three a second cell of the sheet names the same string; the other sheets name it again), FORMULA+STRING \
+         also with a SHRFMLA / ARRAY / TABLE record between the two, inline LABEL cells and FORMULA+STRING results for strings <= 2000 units, sheet names = first <= 30 units of a \
          table string (NUL excluded), read through Xls::new / sheet_names / worksheet_range against the stored text. \
          one table in 12 is made of 13..80 strings nearly all empty (cch = 0, 8- or 16-bit flag, with or without the rich / ext \
          flags carrying zero counts) with a few short ones at the end; `counts`: such tables (and small ones) with cstUnique set \
